@@ -214,3 +214,76 @@ Print Assumptions C06_parked_refuted.
 Print Assumptions C06_order_refuted.
 Print Assumptions C06_sync_flush_refuted.
 Print Assumptions C06_checker_sound.
+
+(* ================================================================ the entry codec itself, TRANSLATED
+   On every check gen/golite.go re-translates (OffsetAndSizeAndSlot).Bytes, (uvarintReader).ReadUvarint / ReadByte and
+   (Bitmap).Get / Set (gsfa/linkedlog/offset-size-slot.go, bitmap.go) from /repo's working tree into the GoLite
+   fragment (Generated/GoLiteC06.v; semantics GoLite.v; DESIGN.md section 10a).  The theorems state that the
+   translated functions ARE the codec functions of the model above (entry_enc, rd_uv), with encoding/binary's
+   AppendUvarint / Uvarint as the oracle GoLiteC06_Codec.std_ext = Codec.uvarint / Codec.uvarint_dec. *)
+Require YF.GoLite YF.Generated.GoLiteC06 YF.GoLiteC06_Codec.
+Import ZArith String.
+
+(* Bytes: three uvarints and the flags byte, for every entry whose flags fit a byte *)
+Theorem C06_translated_entry_bytes_is_entry_enc : forall fuel (e : entry), (snd e < 256)%N ->
+  GoLite.call GoLiteC06.prog GoLiteC06_Codec.std_ext fuel "OffsetAndSizeAndSlot.Bytes"%string [GoLiteC06_Codec.oas_val e]
+  = GoLite.RRet (GoLite.VInts (map Z.of_N (entry_enc e))).
+Proof. exact (GoLiteC06_Codec.Bytes_is_entry_enc GoLiteC06.prog GoLiteC06.prog_OffsetAndSizeAndSlot_Bytes). Qed.
+
+(* ReadUvarint at any position of any buffer shorter than 2^62: io.EOF at the end, a parse failure, or the value and
+   the advanced reader — exactly rd_uv on the rest of the buffer *)
+Theorem C06_translated_read_uvarint_is_rd_uv : forall fuel pos (bs : list N),
+  (Z.of_nat (List.length bs) < 4611686018427387904)%Z ->
+  GoLite.call GoLiteC06.prog GoLiteC06_Codec.std_ext fuel "uvarintReader.ReadUvarint"%string [GoLiteC06_Codec.rdr_val pos bs] =
+  match rd_uv (skipn pos bs) with
+  | Some None => GoLite.RRet (GoLite.VTuple [GoLite.VInt 0%Z; GoLite.VErr "io.EOF"%string; GoLiteC06_Codec.rdr_val pos bs])
+  | None => GoLite.RRet (GoLite.VTuple [GoLite.VInt 0%Z; GoLite.VErr "errors.New: failed to parse uvarint"%string; GoLiteC06_Codec.rdr_val pos bs])
+  | Some (Some (v, _)) =>
+      match uvarint_dec (skipn pos bs) with
+      | Some (_, n) => GoLite.RRet (GoLite.VTuple [GoLite.VInt (Z.of_N v); GoLite.VNil; GoLiteC06_Codec.rdr_val (pos + n) bs])
+      | None => GoLite.RStuck
+      end
+  end.
+Proof. exact (GoLiteC06_Codec.ReadUvarint_is_rd_uv GoLiteC06.prog GoLiteC06.prog_uvarintReader_ReadUvarint). Qed.
+
+Theorem C06_translated_read_byte : forall fuel pos (bs : list N),
+  (Z.of_nat (List.length bs) < 4611686018427387904)%Z ->
+  GoLite.call GoLiteC06.prog GoLiteC06_Codec.std_ext fuel "uvarintReader.ReadByte"%string [GoLiteC06_Codec.rdr_val pos bs] =
+  match nth_error bs pos with
+  | None => GoLite.RRet (GoLite.VTuple [GoLite.VInt 0%Z; GoLite.VErr "io.EOF"%string; GoLiteC06_Codec.rdr_val pos bs])
+  | Some b => GoLite.RRet (GoLite.VTuple [GoLite.VInt (Z.of_N b); GoLite.VNil; GoLiteC06_Codec.rdr_val (S pos) bs])
+  end.
+Proof. exact (GoLiteC06_Codec.ReadByte_spec GoLiteC06.prog GoLiteC06.prog_uvarintReader_ReadByte). Qed.
+
+(* Bitmap.Get / Set on a byte: bit i for 0 <= i < 8, a panic otherwise (as the Go code says) *)
+Theorem C06_translated_bitmap_get : forall ext fuel (b : N) (i : Z), (b < 256)%N ->
+  GoLite.call GoLiteC06.prog ext fuel "Bitmap.Get"%string [GoLite.VInt (Z.of_N b); GoLite.VInt i] =
+  if ((i <? 0) || (8 <=? i))%Z then GoLite.RPanic else GoLite.RRet (GoLite.VBool (N.testbit b (Z.to_N i))).
+Proof. exact (GoLiteC06_Codec.Bitmap_Get_is_testbit GoLiteC06.prog GoLiteC06.prog_Bitmap_Get). Qed.
+
+Theorem C06_translated_bitmap_set : forall ext fuel (b : N) (i : Z) (v : bool), (b < 256)%N ->
+  GoLite.call GoLiteC06.prog ext fuel "Bitmap.Set"%string [GoLite.VInt (Z.of_N b); GoLite.VInt i; GoLite.VBool v] =
+  if ((i <? 0) || (8 <=? i))%Z then GoLite.RPanic
+  else GoLite.RRet (GoLite.VInt (Z.of_N (if v then N.setbit b (Z.to_N i) else N.clearbit b (Z.to_N i)))).
+Proof. exact (GoLiteC06_Codec.Bitmap_Set_is_setbit GoLiteC06.prog GoLiteC06.prog_Bitmap_Set). Qed.
+
+(* non-vacuity: the translated codec RUNS in the kernel: an entry is encoded, then read back field by field *)
+Example C06_translated_codec_runs :
+  let e : entry := (300, 5, 432001, 6)%N in
+  match GoLite.call GoLiteC06.prog GoLiteC06_Codec.std_ext 5 "OffsetAndSizeAndSlot.Bytes"%string [GoLiteC06_Codec.oas_val e] with
+  | GoLite.RRet (GoLite.VInts bytes) =>
+      bytes = [172; 2; 5; 129; 175; 26; 6]%Z /\
+      GoLite.call GoLiteC06.prog GoLiteC06_Codec.std_ext 5 "OffsetAndSizeAndSlot.FromReader"%string
+        [GoLite.VStruct [("Offset"%string, GoLite.VInt 0%Z); ("Size"%string, GoLite.VInt 0%Z); ("Slot"%string, GoLite.VInt 0%Z); ("Flags"%string, GoLite.VInt 0%Z)];
+         GoLite.VStruct [("pos"%string, GoLite.VInt 0%Z); ("buf"%string, GoLite.VInts bytes)]]
+      = GoLite.RRet (GoLite.VTuple [GoLite.VNil; GoLiteC06_Codec.oas_val e;
+                                    GoLite.VStruct [("pos"%string, GoLite.VInt 7%Z); ("buf"%string, GoLite.VInts bytes)]])
+  | _ => False
+  end.
+Proof. vm_compute. split; reflexivity. Qed.
+
+Print Assumptions C06_translated_entry_bytes_is_entry_enc.
+Print Assumptions C06_translated_read_uvarint_is_rd_uv.
+Print Assumptions C06_translated_read_byte.
+Print Assumptions C06_translated_bitmap_get.
+Print Assumptions C06_translated_bitmap_set.
